@@ -441,8 +441,10 @@ impl<T: RealNumber, M: SVDDecomposableMatrix<T>> SVD<T, M> {
         }
     }
 
-    pub(crate) fn solve(&self, mut b: M) -> Result<M, Failed> {
+    pub(crate) fn solve(&self, b: M) -> Result<M, Failed> {
         let p = b.shape().1;
+        // the solution has as many rows as A has columns, b as many as A has rows
+        let mut x = M::zeros(self.n, p);
 
         if self.U.shape().0 != b.shape().0 {
             panic!(
@@ -470,11 +472,11 @@ impl<T: RealNumber, M: SVDDecomposableMatrix<T>> SVD<T, M> {
                 for (jj, tmp_jj) in tmp.iter().enumerate().take(self.n) {
                     r += self.V.get(j, jj) * (*tmp_jj);
                 }
-                b.set(j, k, r);
+                x.set(j, k, r);
             }
         }
 
-        Ok(b)
+        Ok(x)
     }
 }
 
